@@ -250,7 +250,7 @@ theorem pow_pred_order (h2 : 2 < P) (Q a : Nat) (hQ0 : 0 < Q) (hQ : powMod a Q P
 end Kyber.Residue.Laws
 
 /-!
-Section `Twist`: BN256 and BN254 G2. The executable twist model over `F_p[i]/(i²+1)` (pairs of naturals,
+Section `Twist`: BN256, BN254 and BLS12-381 G2. The executable twist model over `F_p[i]/(i²+1)` (pairs of naturals,
 `Groups/Decode.lean`) is Mathlib's elliptic-curve group over the field `QF p` built in `Lib/Fp2Field.lean`
 (`Lib/TwistModel.lean`), so the identities hold for ALL valid points and ALL scalars.
 -/
@@ -291,6 +291,26 @@ theorem bn254_mod (a : Nat) :
     Fp2.smul BN254.twist (a % BN254.n) bn254BaseLit = Fp2.smul BN254.twist a bn254BaseLit
     ∧ Fp2.smul BN254.twist (BN254.n - 1) bn254BaseLit = Fp2.negPt BN254.twist bn254BaseLit :=
   TwistModel.laws_mod bn254_good bn254_base_valid BN254.n (by decide +kernel) bn254_order_lit a
+
+/-- All identities of C01 on the BLS12-381 G2 twist model (shared by the kilic, CIRCL and gnark back-ends). -/
+theorem bls12381g2_laws {P Q R : Fp2.Pt} (hP : Valid BLS12381.twist P) (hQ : Valid BLS12381.twist Q)
+    (hR : Valid BLS12381.twist R) (a b : Nat) :
+    Fp2.addPt BLS12381.twist (Fp2.addPt BLS12381.twist P Q) R = Fp2.addPt BLS12381.twist P (Fp2.addPt BLS12381.twist Q R)
+    ∧ Fp2.addPt BLS12381.twist P Q = Fp2.addPt BLS12381.twist Q P
+    ∧ Fp2.addPt BLS12381.twist P (Fp2.negPt BLS12381.twist P) = none
+    ∧ Fp2.smul BLS12381.twist (a + b) P = Fp2.addPt BLS12381.twist (Fp2.smul BLS12381.twist a P) (Fp2.smul BLS12381.twist b P)
+    ∧ Fp2.smul BLS12381.twist a (Fp2.smul BLS12381.twist b P) = Fp2.smul BLS12381.twist (a * b) P
+    ∧ Fp2.smul BLS12381.twist a (Fp2.addPt BLS12381.twist P Q) = Fp2.addPt BLS12381.twist (Fp2.smul BLS12381.twist a P) (Fp2.smul BLS12381.twist a Q)
+    ∧ Fp2.smul BLS12381.twist 0 P = none ∧ Fp2.smul BLS12381.twist 1 P = P :=
+  TwistModel.laws blsg2_good hP hQ hR a b
+
+theorem bls12381g2_mod (a : Nat) :
+    Fp2.smul BLS12381.twist (a % BLS12381.r) BLS12381.g2Base = Fp2.smul BLS12381.twist a BLS12381.g2Base
+    ∧ Fp2.smul BLS12381.twist (BLS12381.r - 1) BLS12381.g2Base = Fp2.negPt BLS12381.twist BLS12381.g2Base :=
+  TwistModel.laws_mod blsg2_good blsg2_base_valid BLS12381.r (by decide +kernel) bls_order a
+
+example : Valid BLS12381.twist BLS12381.g2Base ∧ BLS12381.g2Base ≠ none ∧ Nat.Prime BLS12381.r :=
+  ⟨blsg2_base_valid, by decide, BLS12381.r_prime⟩
 
 /-- Non-vacuity: the generators are valid, not the identity, and killed by the prime group order. -/
 example : Valid BN256.twist bn256BaseLit ∧ bn256BaseLit ≠ none ∧ Nat.Prime BN256.n :=
